@@ -159,7 +159,8 @@ def check_config(ctx, F, tag):
     lb = F.body("<bit_vector::BitVector as serialize::Serialize>::load")
     agg_blocks = [bi for bi, si, st in lb.stmts() if st["s"] == "assign" and st["rv"]["r"] == "agg" and st["rv"].get("def") == BV]
     errk = [bi for bi, si, st in lb.stmts() if st["s"] == "assign" and st["rv"]["r"] == "agg" and st["rv"].get("def") == "std::io::ErrorKind"]
-    leak = [e for e in errk if any(a in lb.reach_from([e]) for a in agg_blocks)]
+    from guards import reach_on_error_path
+    leak = [e for e in errk if any(a in reach_on_error_path(lb, e) for a in agg_blocks)]
     ctx.ob("C19.R2.validation-only-refuses", lb.name + tag, loc(lb.raw["span"]), len(errk) >= 4 and not leak, "cfg-reachability",
            "%d validation failure blocks; aggregate reachable from one: %s" % (len(errk), leak))
 
